@@ -14,8 +14,38 @@ ASSUMPTIONS = ["the registry is a pure function value -> list of hits (Section v
                "assume wf_search: every reported hit is non-empty and in bounds (the C06 precondition)"]
 
 
+def shipped_laminar(ctx, n):
+    """the shipped registry on generated inputs: in EVERY child list of the result tree (children attached by the scan, and the sub-structure decoders attach to their
+    own results alike) start offsets are non-decreasing and end offsets strictly increasing"""
+    import corpus_gen
+    from common import node_val
+    from multidecoder.multidecoder import Multidecoder
+    from scan_common import ScanTimeout, with_timeout
+    md = Multidecoder()
+    for data in corpus_gen.gen_inputs(ctx.rng, n) + [corpus_gen.plain_nested(ctx.rng) for _ in range(n // 10)]:
+        try:
+            tree = node_val(with_timeout(lambda: md.scan(data), 20))
+        except (ScanTimeout, Exception):  # noqa: BLE001  (C01)
+            continue
+        ctx.evals += 1
+        bad = []
+
+        def walk(t):
+            for x, y in zip(t[5], t[5][1:]):
+                if not (x[3] <= y[3] and x[4] < y[4]) and not bad:
+                    bad.append(f"children of {t[0]!r} {t[1][:50]!r}: ({x[0]!r},{x[3]},{x[4]}) then ({y[0]!r},{y[3]},{y[4]}) - starts must not decrease, ends must strictly increase")
+            for c in t[5]:
+                walk(c)
+        walk(tree)
+        if any(len(t[5]) >= 2 for t in [tree] + tree[5]):
+            ctx.nontrivial.add(("shipped", data))
+        if bad:
+            ctx.violation("shipped_scan", [data], bad[0])
+
+
 def run(ctx):
     run_engine(ctx, ORACLES)
+    shipped_laminar(ctx, ctx.budget(600, 12000))
 
 
 def search(ctx):
